@@ -22,6 +22,7 @@ AllOps ==
   \cup {O(c, "push", "", b, 0, "", 0) : c \in Ctxs, b \in Boxes}
   \cup {O(c, op, "", 0, 0, k, 0) : c \in Ctxs, op \in {"mkproxy", "proxy_read"}, k \in PKinds}
   \cup {O(c, "proxy_mutate", "", 0, v, k, 0) : c \in Ctxs, v \in Vals, k \in PKinds}
+  \cup {O(c, op, "", 0, 0, k, 0) : c \in Ctxs, op \in {"proxy_pop", "proxy_clear"}, k \in PKinds}
   \cup {O(c, "spawn", "", 0, 0, "", ch) : c \in Ctxs, ch \in Ctxs}
 
 Allowed(S, o) == /\ o.op \in OpKinds
